@@ -54,7 +54,7 @@ func LoadProgram(repo string, overlay map[string][]byte) (*Program, error) {
 	if len(errs) > 0 {
 		return nil, fmt.Errorf("load errors:\n%s", strings.Join(errs, "\n"))
 	}
-	prog, _ := ssautil.AllPackages(pkgs, ssa.InstantiateGenerics)
+	prog, _ := ssautil.AllPackages(pkgs, ssa.InstantiateGenerics|ssa.GlobalDebug)
 	prog.Build()
 	p := &Program{Fset: pkgs[0].Fset, Pkgs: pkgs, SSA: prog, ByKey: map[string]*ssa.Function{}, Named: map[string]*types.Named{}, Repo: repo, files: map[string]*ast.File{}, Overlay: overlay}
 	for fn := range ssautil.AllFunctions(prog) {
